@@ -14,6 +14,10 @@ import Csverif.Driver.Wire
                                              Runnable.run/SyncManager.do over the current changeset (not written back);
                                              w ∈ F(inished) P(unted) Q(requeue) R(aised), d = time the work takes
                                              → `<t> <id|~> ; … | <final in_backoff>`
+   `obsreset` | `obs <now-age> <attempted id|~> <raised T|F> | <id> <prio> <lchanged> <rchanged> ; … | <rows after>` |
+   `wait <id>`                               monitor of engine traces (Model/SchedLoop.lean `Obs.check`, `waitOf`): one `obs` per
+                                             call of the real SyncManager.do → `ok <kind>` or `bad <kind> pick|stuck|rank …`;
+                                             `wait` → `<eligible T|F> <attempted T|F> <busy> <bound>`
    every mutating line answers `[id <n>|pick <x>] <M|U> <last> | <id> <prio> <lchanged> <rchanged> <lpath> <rpath> ; … | <pending ids>`
    (`U` = an unmodelled branch was met since the last reset). -/
 namespace CS.Driver.Sched
@@ -43,10 +47,19 @@ def parseSide : String → Option Bool
 
 def parseStr (t : String) : Option String := (decStr t).map String.ofList
 
+/-- split a token list at every occurrence of `sep` -/
+def splitTok (sep : String) : List String → List (List String)
+  | [] => [[]]
+  | t :: ts =>
+    match splitTok sep ts with
+    | [] => [[t]]
+    | g :: gs => if t == sep then [] :: g :: gs else (t :: g) :: gs
+
 structure DSt where
   st    : St := {}
   dns   : List (String × String) := []
   infos : List ((Bool × String) × Option (String × Rat)) := []
+  obs   : List SchedLoop.Obs := []
 
 def DSt.dn (d : DSt) (p : String) : String :=
   match d.dns.find? (·.1 == p) with
@@ -140,12 +153,41 @@ def step (d : DSt) (toks : List String) : DSt × String :=
       let (st, r) := changeFull d.orc d.st now age
       ({ d with st := st }, (match r with | some e => s!"pick {e.id} " | none => "pick ~ ") ++ encSt st)
     | _, _ => bad
+  | ["obsreset"] => ({ d with obs := [] }, "ok")
+  | "obs" :: earlier :: att :: raised :: "|" :: rest =>
+    let parseRows (ts : List String) : Option (List Entry) :=
+      let groups := (splitTok ";" ts).filter (fun g => !g.isEmpty)
+      groups.mapM (fun g => match g with
+        | [id, pr, lc, rc] =>
+          match id.toNat?, parseRat pr, (if lc == "~" then some none else (parseRat lc).map some),
+                (if rc == "~" then some none else (parseRat rc).map some) with
+          | some id, some pr, some lc, some rc =>
+            some ({ id := id, priority := pr, l := { changed := lc }, r := { changed := rc } } : Entry)
+          | _, _, _, _ => none
+        | _ => none)
+    let (bef, aft) := match rest.span (· != "|") with
+      | (b, _ :: a) => (b, a)
+      | (b, []) => (b, [])
+    match parseRat earlier, (if att == "~" then some none else att.toNat?.map some), decBool raised, parseRows bef, parseRows aft with
+    | some earlier, some att, some raised, some bef, some aft =>
+      let o : SchedLoop.Obs := { earlier := earlier, before := bef, attempted := att, raised := raised, after := aft }
+      let k := match o.kind with | .idle => "idle" | .done => "done" | .punt => "punt" | .keep => "keep"
+      let bad := o.check
+      ({ d with obs := d.obs ++ [o] }, if bad.isEmpty then "ok " ++ k else "bad " ++ k ++ " " ++ " ".intercalate bad)
+    | _, _, _, _, _ => bad
+  | ["wait", id] =>
+    match id.toNat? with
+    | some id =>
+      let r := SchedLoop.waitOf id d.obs
+      (d, s!"{encBool r.1} {encBool r.2.1} {r.2.2.1} {r.2.2.2}")
+    | none => bad
   | "loop" :: age :: sleep :: mn :: mx :: mult :: b0 :: now :: ws =>
     let parseStep (t : String) : Option SchedLoop.Step :=
       match t.splitOn ":" with
       | [w, dd] =>
         match (match w with
           | "F" => some SchedLoop.Work.finished | "P" => some .punted | "Q" => some .requeue | "R" => some .raised
+          | "K" => some .stuck
           | _ => none), parseRat dd with
         | some w, some dd => some { work := w, dur := dd }
         | _, _ => none
